@@ -71,7 +71,7 @@ def main(argv):
         for bad in rec["problems"]:
             c.violation("%s: %s" % (alg, bad["what"]), {"config": cfg, "detail": bad}, key=bad["key"])
     return c.finish(
-        rule="%d encrypted requests of mixed types (get, get_many, getnext, getbulk) over %d sessions (DES x2, AES), interleaved with receives, "
+        rule="%d encrypted requests of mixed types (refresh probes incl. those of session entry, get, get_many, getnext, getbulk) over %d sessions (DES x2, AES), interleaved with receives, "
              "timeouts and a refresh, one key installation each: salts pairwise distinct and equal to first+i, priv flag set, 8 octets, DES salt "
              "prefix = engine boots, and no encoded request OID outside the ciphertext; distinct = distinct salts" % (total, len(res["sessions"])),
         extra={"messages": total, "traces_validated_against_impl": total})
@@ -105,19 +105,24 @@ def api_main(g, job):
         rec = {"config": cfg, "salts": [], "boots": [], "ops": [], "problems": [], "timeouts": 0}
         sess.op("refresh", [])
         cur_boots = boots0
-        for d in agent.take():
-            pass
+        agent.take()
+        first = list(state["req"])       # the refresh probes of session entry are messages of this key installation too
         state["req"] = []
         i = 0
+        pending_first = first
         while len(rec["salts"]) < job["n"]:
             i += 1
-            op = rng.choice(["get", "get", "get_many", "getnext", "getbulk"])
+            op = rng.choice(["get", "get", "get_many", "getnext", "getbulk", "refresh"]) if i > 1 else "first"
             arcs = [1, 3, 6, 1, 4, 1, 99999, rng.randrange(2 ** 32), rng.randrange(2 ** 20), i % 128]
             t = ber.oid_text(arcs)
             state["reply"] = rng.random() > 0.03          # some requests time out
             if not state["reply"]:
                 rec["timeouts"] += 1
-            if op == "get":
+            if op == "first":
+                state["req"] = pending_first
+            elif op == "refresh":
+                r = sess.op("refresh", [])
+            elif op == "get":
                 r = sess.op("get", [t])
             elif op == "get_many":
                 r = sess.op("get_many", [[t, t + ".1"]])
@@ -141,7 +146,7 @@ def api_main(g, job):
                     continue
                 clear = data.replace(m["encrypted"], b"")
                 needle = ber.oid_content(arcs)[4:]       # the distinctive part of the requested OID
-                if needle in clear:
+                if op not in ("first", "refresh") and needle in clear:
                     rec["problems"].append({"key": "oid-in-clear", "what": "the requested OID appears outside the ciphertext", "datagram": data.hex()})
             state["req"] = []
         sess.close()
